@@ -22,7 +22,7 @@ FEATURES = ["colruns", "rowruns", "s-single", "s-noc", "paragraphs", "spans", "e
             "colstyle", "trailing-empty-run", "annotations", "embedded-object", "links", "header-rows", "row-groups",
             "covered-cells", "no-value-type", "no-mimetype"]
 FAULT_KINDS = ["truncate", "xml-cut", "member-missing", "not-a-zip", "corrupt-member", "bad-repeat", "missing-sheet",
-               "deep-nesting"]
+               "deep-nesting", "no-spreadsheet"]
 RULE_TEXT = (
     "seeded scenarios: 1-3 sheets of 0-6 rows x 0-8 cells over an alphabet with runs of equal cells, equal adjacent rows, "
     "multiple / leading / trailing blanks, tabs, line breaks, XML-special and non-ASCII characters, encoded by the ODF "
@@ -164,6 +164,14 @@ def build(scenario):
         for offset in range(position, min(position + 3, start + info.compress_size)):
             damaged[offset] ^= 0xFF
         return bytes(damaged), used, logical, True
+    if kind == "no-spreadsheet":
+        # a well-formed package whose content.xml holds no spreadsheet at all (a text document renamed to .ods, an
+        # empty body): there is no sheet k, so a data-format error is due
+        start = text.find("<office:spreadsheet>")
+        end = text.find("</office:spreadsheet>")
+        replacement = "<office:text/>" if fault["at"] < 0.5 else ""
+        text = text[:start] + replacement + text[end + len("</office:spreadsheet>"):]
+        return odf.archive(text.encode("utf-8"), features), used, logical, True
     if kind == "deep-nesting":
         # well-formed, but nested deeper than a recursive reader can follow: the first paragraph of the sheet gets
         # 3000 nested spans, or its rows are wrapped into 3000 nested row groups.  Either the rows come back right
